@@ -246,6 +246,16 @@ func (ds *describer) d(v ssa.Value, depth int) string {
 	case *ssa.Index:
 		return ds.d(x.X, depth+1) + "[" + ds.d(x.Index, depth+1) + "]"
 	case *ssa.Lookup:
+		// m[k] with k the key of a range over the same m is the ranged value: one canonical form
+		if ex, ok := x.Index.(*ssa.Extract); ok && ex.Index == 1 && !x.CommaOk {
+			if nx, ok := ex.Tuple.(*ssa.Next); ok {
+				if rg, ok := nx.Iter.(*ssa.Range); ok && (rg.X == x.X || ds.d(rg.X, depth+1) == ds.d(x.X, depth+1)) {
+					if _, isMap := rg.X.Type().Underlying().(*types.Map); isMap {
+						return "rangeval(" + ds.d(rg.X, depth+1) + ")"
+					}
+				}
+			}
+		}
 		return ds.d(x.X, depth+1) + "[" + ds.d(x.Index, depth+1) + "]"
 	case *ssa.UnOp:
 		switch x.Op {
